@@ -141,7 +141,7 @@ CHECKS = {
              "set/remove/increment/snapshot/restart histories on the real code and compares the reloaded database with the snapshotted one.",
         level_note="Sequential semantics over a trusted disk model. Each link (establish / keep / implies) is a discharged obligation on real code or a lemma; their "
                    "composition over a whole history is an induction a reader does, not a trace theorem. File-system glue (rename / remove / open), metadata files, the "
-                   "snapshot driver and torn files are trusted or out of scope.",
+                   "torn files are trusted or out of scope (the snapshot driver is verified: unit driver).",
     ),
     "C07": dict(
         engine="verus-units", design_ref="DESIGN.md §10 'C07 contract notes'", technique="deductive verification (Verus/Z3) of function contracts, loop invariants and termination measures on the extracted real election_ops functions (single-node clauses only)",
@@ -234,6 +234,7 @@ TEXT_ADDENDA = {
     "C09": " The credentials checked are the tokens sent (parsers of auth / use-db, unit parser); a refused login leaves the session bound as before, an accepted user login binds exactly that user (unit sessions).",
     "C19": " A write received from a peer goes through the same resolving operation on every node role (op_replicate_set); a database restored without a metadata file gets the newer strategy (unit snapshot).",
     "C05": " The live emitter (replicate_request, get_replicate_message) and the receiving parser of `replicate` are under contract too: the layout `db key VERSION value` is what one writes and the other reads.",
+    "C06": " The snapshot DRIVER is verified too (unit driver): a snapshot request for an existing database is queued with its mode and answered Ok, one for an unknown database is refused; snapshot_all_pendding_dbs (real while-let loop, invariant) saves the key map first and then takes exactly the requested snapshots - one per request, each database in its own mode, vanished databases skipped - and leaves the queue empty.",
     "C01": " process_request hands the parser the received line minus only its line feeds (unit outbox).",
     "C17": " An HTTP request's session is released when the request ends, whatever its commands answered (process_commands, unit http).",
 }
